@@ -48,6 +48,10 @@ var targetsFull = []string{
 	"/..", "/../a", "a/..", "a/a/..", "a/a/../..", "a/a/../a", "a/a/../out2", longSeg,
 }
 
+// namesT / targetsT: alphabet of the two leading entries of the thorough triples.
+var namesT = []string{"a", "a/a", "out2", "out2/a", "/a", "../a", "../out2/a", "a/../../a"}
+var targetsT = []string{"a", "..", "/a", "../out2", "a/a/..", "a/a/../out2"}
+
 var targetsQ = []string{"a", "..", "/a", "../out2", "a/a/..", "a/a/../out2", "../..", "/.."}
 
 type entry struct {
@@ -336,6 +340,23 @@ func classify(ep string, c imgCase, outside []change, stage string) []viol {
 	return out
 }
 
+// withFile returns base plus the regular file at abs (which the harness itself just wrote) under
+// the relative name rel; cheaper than a second full snapshot.
+func withFile(base []ent, rel, abs string) []ent {
+	b, err := os.ReadFile(abs)
+	must(err)
+	fi, err := os.Lstat(abs)
+	must(err)
+	sum := sha256.Sum256(b)
+	e := ent{Path: rel, Type: "f", Size: int64(len(b)), Mode: uint32(fi.Mode().Perm()), Sum: hex.EncodeToString(sum[:])}
+	out := make([]ent, 0, len(base)+1)
+	i := sort.Search(len(base), func(i int) bool { return base[i].Path >= rel })
+	out = append(out, base[:i]...)
+	out = append(out, e)
+	out = append(out, base[i:]...)
+	return out
+}
+
 func splitChanges(chs []change, designated string) (inside, outside []change) {
 	for _, ch := range chs {
 		if designated != "" && under(ch.Path, designated) {
@@ -366,7 +387,7 @@ func runImageCase(sb *sandbox, c imgCase) caseResult {
 	}()
 	report := func(vs []viol) {
 		for _, v := range vs {
-			v.What = c.String() + ": " + v.What
+			v.What = c.String() + ": " + strings.ReplaceAll(v.What, sb.R, "<R>")
 			res.Viols = append(res.Viols, v)
 		}
 		if len(vs) > 0 {
@@ -396,7 +417,7 @@ func runImageCase(sb *sandbox, c imgCase) caseResult {
 				return res
 			}
 			must(os.WriteFile(tarPath, b, 0o644))
-			base = snapshot(sb.R)
+			base = withFile(sb.base, chain+"/in/image.tar", tarPath)
 		}
 		out := sb.dir("out")
 		var rerr error
@@ -440,7 +461,7 @@ func runImageCase(sb *sandbox, c imgCase) caseResult {
 				res.Skipped = true
 				return res
 			}
-			base = snapshot(sb.R)
+			base = withFile(sb.base, chain+"/in/image.tar", tarPath)
 		}
 		var li *image.Image
 		var rerr error
